@@ -62,6 +62,7 @@ type Source struct {
 	Rich    bool   // present as RichSource
 	Pre     []byte // foreign bytes before the call position (rich only)
 	Extra   int    // calls of methods other than Read
+	Deliv   int    // bytes handed out in total, by whatever method (a rewound source has Pos < Deliv)
 }
 
 func NewSource(data []byte, cut int, fail error, s Sched) *Source {
@@ -124,6 +125,7 @@ func (s *Source) Read(p []byte) (int, error) {
 		}
 	}
 	s.Pos += n
+	s.Deliv += n
 	if s.Pos == s.Cut && s.S.WithErr {
 		return n, s.Fail
 	}
@@ -147,6 +149,7 @@ func (r RichSource) Read(p []byte) (int, error) {
 		n := copy(p, r.Pre[len(r.Pre)+r.Pos:])
 		r.Pos += n
 		r.NReads++
+		r.Deliv += n
 		return n, nil
 	}
 	return r.Source.Read(p)
@@ -183,6 +186,7 @@ func (r RichSource) ReadAt(p []byte, off int64) (int, error) {
 			p[n] = r.Pre[len(r.Pre)+i]
 		case i < r.Cut:
 			p[n] = r.at(i)
+			r.Deliv++
 		default:
 			return n, r.Fail
 		}
@@ -352,7 +356,7 @@ func Run(loader string, src *Source, drain bool, measure bool) (o Obs) {
 		runtime.ReadMemStats(&m1)
 		o.AllocBytes = m1.TotalAlloc - m0.TotalAlloc
 	}
-	o.Pulled, o.NReads, o.MaxReq = src.Pos, src.NReads, src.MaxReq
+	o.Pulled, o.NReads, o.MaxReq = src.Deliv, src.NReads, src.MaxReq // everything handed out, also what a rewind gave back
 	if o.Panic != "" {
 		o.StreamNil = true
 		return
@@ -381,6 +385,41 @@ func Run(loader string, src *Source, drain bool, measure bool) (o Obs) {
 	o.StreamNil = stream == nil
 	if drain && stream != nil {
 		Drain(&o, stream, src)
+	}
+	return
+}
+
+// RunReader calls the loader on an arbitrary reader and projects the outcome (no source
+// statistics, no drain).
+func RunReader(loader string, r io.Reader) (o Obs) {
+	o.Loader = loader
+	o.ICC = "n/a"
+	var md *meta.Data
+	var err error
+	func() {
+		defer func() {
+			if r := recover(); r != nil {
+				o.Panic = fmt.Sprint(r)
+			}
+		}()
+		md, _, err = Loaders[loader](r)
+	}()
+	if o.Panic != "" {
+		return
+	}
+	o.OK = err == nil
+	if md != nil {
+		o.HasMD = true
+		o.Format, o.W, o.H, o.BPC = string(md.Format), md.PixelWidth, md.PixelHeight, md.BitsPerComponent
+		data, ierr := md.ICCProfileData()
+		switch {
+		case ierr != nil:
+			o.ICC = "err"
+		case data != nil:
+			o.ICC, o.ICCLen, o.ICCHash = "data", len(data), hashBytes(data)
+		default:
+			o.ICC = "none"
+		}
 	}
 	return
 }
